@@ -1046,13 +1046,78 @@ def cwspec(p, rows_fr, U):
     return f"(W2 {clist(crow(fr) for fr in rows_fr)})"
 
 
+OBJ_POOL = [1, "a", 2.5, (1, 2), None, "b", (3,), 7]          # heterogeneous options (object containers only)
+
+
+def option_values(spec):
+    n, t = spec["n"], spec["type"]
+    if spec["kind"] == "range":
+        return list(range(n))
+    if t == "str":
+        return ["opt%d" % j for j in range(n)]
+    if t == "int":
+        return [10 * (j + 1) for j in range(n)]
+    if t == "num":                                   # ints and floats: numpy promotes to float, values stay equal
+        return [(j + 1) if j % 2 == 0 else j + 0.5 for j in range(n)]
+    if t == "str_none":
+        return ["opt%d" % j if j != n // 2 else None for j in range(n)]
+    if t == "tuples":
+        return [(j, j + 1) for j in range(n)]
+    return OBJ_POOL[:n]                              # "mixed"
+
+
 def make_choices(spec):
+    """The options and the `choices` argument in one of the containers the API accepts.  Heterogeneous options and
+    tuples are only passed in object containers (1-d object ndarray, object Series): numpy coerces a plain mixed list to
+    strings and turns a list of equal-length tuples into a 2-d array (reported, kept out of the generator)."""
     import numpy as np
     import pandas as pd
-    vals = ["opt%d" % j for j in range(spec["n"])] if spec["type"] == "str" else [10 * (j + 1) for j in range(spec["n"])]
+    vals = option_values(spec)
     k = spec["kind"]
-    obj = vals if k == "list" else tuple(vals) if k == "tuple" else np.array(vals) if k == "array" else pd.Series(vals)
+    n = len(vals)
+    if k == "list":
+        obj = list(vals)
+    elif k == "tuple":
+        obj = tuple(vals)
+    elif k == "array":
+        obj = np.array(vals)
+    elif k == "objarray":
+        obj = np.empty(n, dtype=object)
+        for j, v in enumerate(vals):
+            obj[j] = v
+    elif k == "series":
+        obj = pd.Series(vals, dtype=object) if spec["type"] in ("mixed", "tuples") else pd.Series(vals)
+    elif k in ("series_perm", "series_str"):
+        order = list(range(n))
+        random.Random(spec.get("perm", 0)).shuffle(order)
+        labels = order if k == "series_perm" else ["lab%d" % j for j in order]
+        obj = pd.Series(vals, index=labels, dtype=object) if spec["type"] in ("mixed", "tuples") else pd.Series(vals, index=labels)
+    elif k == "index":
+        obj = pd.Index(vals)
+    elif k == "range":
+        obj = range(n)
+    else:
+        raise ValueError(k)
     return vals, obj
+
+
+def same_option(got, want):
+    """Is the returned value the option `want`?  Missing values (None / nan) are one value; numbers compare numerically
+    (numpy may promote int to float), everything else by type and value."""
+    def missing(x):
+        return x is None or (isinstance(x, float) and x != x)
+    if missing(got) or missing(want):
+        return missing(got) and missing(want)
+    if isinstance(want, bool) or isinstance(want, str) or isinstance(want, tuple):
+        return type(got) is type(want) and got == want
+    try:
+        return not isinstance(got, (str, tuple)) and float(got) == float(want)
+    except Exception:
+        return False
+
+
+def same_lists(a, b):
+    return len(a) == len(b) and all(same_option(x, y) for x, y in zip(a, b))
 
 
 def decide_case(case, labels, dfl, dfr, call, recall):
@@ -1089,19 +1154,20 @@ def decide_case(case, labels, dfl, dfr, call, recall):
     out, code, err = attempt()
     got = []
     if code == 0:
-        back = {v: j for j, v in enumerate(cvals)}
         if list(out.index) != list(labels):
             fail(f"choice returned index {list(out.index)} for request {labels}")
         for v in out.tolist():
-            if v not in back:
-                fail(f"choice returned {v!r}, not one of the options {cvals}")
+            hit = [j for j, o in enumerate(cvals) if same_option(v, o)]     # the OPTION itself, positionally in `choices`
+            if not hit:
+                fail(f"choice returned {v!r}, which is not one of the options {cvals} (choices given as "
+                     f"{case['choices']['kind']})")
                 got.append(-1)
             else:
-                got.append(back[v])
+                got.append(hit[0])
     # the result is a function of (draws, inputs): the same call after heap churn gives the same answer
     churn(case.get("meta_i", 0) + 1, n * max(k, 1), 1e300)
     out_b, code_b, _ = attempt()
-    if code != code_b or (code == 0 and out.tolist() != out_b.tolist()):
+    if code != code_b or (code == 0 and not same_lists(out.tolist(), out_b.tolist())):
         fail(f"the same call gave two different results: {None if code else out.tolist()} and then "
              f"{None if code_b else out_b.tolist()} - the result depends on something other than draws and weights")
     if p is not None and any(is_odd_row(fr) for fr in rows_fr):
@@ -1163,7 +1229,7 @@ def decide_case(case, labels, dfl, dfr, call, recall):
                     else:
                         vi = rows_vals[0] if (p["shape"] == "1d" or len(rows_vals) == 1) else rows_vals[i]
                         one = recall([i], cobj, build_weights({"shape": "1d", "container": "list"}, [vi]))
-                    if one.tolist() != [cvals[got[i]]]:
+                    if not (len(one) == 1 and same_option(one.tolist()[0], cvals[got[i]])):
                         fail(f"simulant {labels[i]} alone with its own weight row gets {one.tolist()}, inside the request "
                              f"{cvals[got[i]]!r}: the decision depends on other rows")
                 except Exception as e:
@@ -1171,12 +1237,12 @@ def decide_case(case, labels, dfl, dfr, call, recall):
                 if p is not None and exact and not any_res:
                     sc = build_weights({"shape": p["shape"], "container": "list" if p["shape"] == "1d" else "list2d"},
                                        [[v * 4 for v in r] for r in rows_vals])
-                    if recall(list(range(n)), cobj, sc).tolist() != out.tolist():
+                    if not same_lists(recall(list(range(n)), cobj, sc).tolist(), out.tolist()):
                         fail("multiplying all weights by 4 changed the choices")
                 if p is not None and exact and every_res:
                     ex = build_weights({"shape": p["shape"], "container": "list" if p["shape"] == "1d" else "list2d"},
                                        [[float(w) for w in r] for r in all_rows])
-                    if recall(list(range(n)), cobj, ex).tolist() != out.tolist():
+                    if not same_lists(recall(list(range(n)), cobj, ex).tolist(), out.tolist()):
                         fail("spelling the residual weight out changed the choices")
     # ---- Coq case ----
     coq = None
@@ -1238,8 +1304,15 @@ def decide_odd(case, labels, dfl, dfr, k, p, rows_fr, code, got, err, ok, msg):
 
 
 def gen_choices(rng):
-    return {"n": rng.choice([1, 2, 2, 3, 3, 4, 5, 6]), "kind": rng.choice(["list", "list", "tuple", "array", "series"]),
-            "type": rng.choice(["str", "str", "int"])}
+    kind = rng.choice(["list", "list", "tuple", "array", "objarray", "series", "series_perm", "series_perm", "series_str",
+                       "index", "range"])
+    if kind in ("objarray", "series", "series_perm", "series_str"):
+        typ = rng.choice(["str", "int", "num", "str_none", "mixed", "tuples"])
+    elif kind == "index":
+        typ = rng.choice(["str", "int", "num"])
+    else:
+        typ = rng.choice(["str", "str", "int", "num", "str_none"])
+    return {"n": rng.choice([1, 2, 2, 3, 3, 4, 5, 6]), "kind": kind, "type": typ, "perm": rng.getrandbits(16)}
 
 
 def gen_choice(rng: random.Random):
